@@ -873,14 +873,34 @@ MAX_INLINE = 8
 LAMBDA_VALUES: dict = {}
 
 
+def _simple_value(t) -> bool:
+    """A parameter passed through as given (symbol, constant, tuple / conditional / negation of such): no operation
+    is hidden in it, so it need not be abstracted as a RAW leaf (whether it is a leaf is the leaf rules' business)."""
+    h = t[0]
+    if h in ("const", "sym", "ext"):
+        return True
+    if h in ("tuple", "list"):
+        return all(_simple_value(x) for x in t[1])
+    if h == "ite":
+        return _simple_value(t[2]) and _simple_value(t[3])
+    if h == "mul":
+        return len(t[1]) == 2 and any(is_const(x) for x in t[1]) and all(_simple_value(x) for x in t[1])
+    if h == "sub":
+        return _simple_value(t[1]) and is_const(t[2])
+    return False
+
+
 def lambda_normal(prog, t):
-    """Replace each wrappers.Lambda(...) subterm whose value is known by Lambda$value(value): two Lambdas that unwrap
-    to the same value compare equal however the callable is spelled (closure, partial, callable class)."""
+    """Replace each wrappers.Lambda(...) subterm whose value is known by Lambda$value(body, RAW$i=init_i ...): body is
+    the callable applied to its pytree children as opaque RAW leaves, the keywords give their initial values.  Two
+    Lambdas compare equal iff they compute the same function of the same trainable leaves, however the callable is
+    spelled (closure, partial, callable object) - but NOT if an operation moved from the unwrap into the leaf's initial
+    value (a mask applied once at construction)."""
     def f(s):
         if s[0] == "call" and s[1] == ("ext", "flowjax.wrappers.Lambda"):
             v = LAMBDA_VALUES.get((id(prog), key(s)))
             if v is not None:
-                return ("call", ("ext", "flowjax.wrappers.Lambda$value"), (v,), ())
+                return ("call", ("ext", "flowjax.wrappers.Lambda$value"), (v[0],), v[1])
         return None
     return subst(t, f)
 
@@ -2015,19 +2035,31 @@ class Interp:
             # (g if c else h)(args) == g(args) if c else h(args)
             return mk_ite(f[1], self.as_term(self.call(f[2], args, kwargs, ctx, node)),
                           self.as_term(self.call(f[3], args, kwargs, ctx, node)))
-        lam_val = None
-        if isinstance(f, tuple) and f == ("ext", "flowjax.wrappers.Lambda") and (args or "fn" in kwargs) and not opaque_args:
-            fn0 = args[0] if args else kwargs["fn"]
-            try:
-                lam_val = self.as_term(self.call(fn0, list(args[1:]), {k: v for k, v in kwargs.items() if k != "fn"}, ctx))
-            except AnalysisError:
-                lam_val = None
         targs = [self.as_term(a) for a in args]
         tkw = {k: self.as_term(v) for k, v in kwargs.items()}
-        if lam_val is not None and not has_unknown(lam_val):
-            t_lam = norm_call(f, targs, tkw, self.prog)
-            LAMBDA_VALUES[(id(self.prog), key(t_lam))] = lam_val
-            return t_lam
+        if isinstance(f, tuple) and f == ("ext", "flowjax.wrappers.Lambda") and (args or "fn" in kwargs) and not opaque_args:
+            # value of the node: fn applied to its pytree children, each non-static child standing as an opaque RAW
+            # leaf named by the digest of its initial value (what the optimiser / a conditioner varies)
+            from .rules.leaves import kind as _kind
+            inits = {}
+
+            def raw(v):
+                tv = self.as_term(v)
+                if _kind(tv) in ("static", "callable") or _simple_value(tv):
+                    return tv
+                nm = "RAW$" + key(tv)[:10]
+                inits[nm] = tv
+                return ("sym", nm)
+            fn0 = args[0] if args else kwargs["fn"]
+            try:
+                body = self.as_term(self.call(fn0, [raw(a) for a in args[1:]],
+                                              {k: raw(v) for k, v in kwargs.items() if k != "fn"}, ctx))
+            except AnalysisError:
+                body = None
+            if body is not None and not has_unknown(body):
+                t_lam = norm_call(f, targs, tkw, self.prog)
+                LAMBDA_VALUES[(id(self.prog), key(t_lam))] = (body, tuple(sorted(inits.items())))
+                return t_lam
         if isinstance(f, tuple) and f[0] == "ext" and f[1].startswith("operator.") and len(targs) == 2 and not tkw:
             opn = f[1].split(".", 1)[1]
             cm = {"ge": ">=", "gt": ">", "le": "<=", "lt": "<", "eq": "==", "ne": "!="}
